@@ -21,6 +21,7 @@ func propC03(r *Report, tier string) {
 	ruleMarkBeforeCreate(r, "K5-mark-before-create")
 	ruleUnmarkAfterCommit(r, "K5-unmark-after-commit")
 	ruleEquivSnapshotOwnEpoch(r, "K6-persisted-snapshot-own-epoch")
+	ruleLoopScratchBufferReset(r, "K5-loop-scratch-buffer-reset", "index/scorch", "index/upsidedown", "util")
 	ruleSegmentIDsNotReissued(r, "K5dep-segment-ids-from-disk")
 	ruleErrorsLookedAt(r, "Kerr-errors-looked-at", func(rel string) bool { return rel == "index/scorch" }, errAllowScorch)
 	ruleInMemoryMergeCoverage(r, "K14-memmerge-coverage")
@@ -447,9 +448,10 @@ func sameCriticalSection(g *FCFG, info *types.Info, stmts []*ast.AssignStmt, loc
 				continue
 			}
 			for _, rel := range releases {
-				if g.ReachesNode(a, rel) && g.ReachesNode(rel, b) && !g.ReachesNode(b, a) {
-					// a ... unlock ... b on some path without looping back
-					if g.DominatesNode(a, rel) && g.DominatesNode(rel, b) {
+				if g.ReachesFwdNode(a, rel) && g.ReachesFwdNode(rel, b) && !g.ReachesFwdNode(b, a) {
+					// a ... unlock ... b within one pass: the release lies between them on every path to b
+					// (a itself may be conditional, e.g. `if next.persisted != nil { append }`)
+					if g.DominatesNode(rel, b) {
 						return false
 					}
 				}
